@@ -177,6 +177,14 @@ func (n *node) GetModuleByPrefix(
 		// The local prefix may be ommitted or used explicitly
 		return root, nil
 	}
+	if root.Type() == NodeSubmodule {
+		// A submodule has no prefix of its own: the prefix given in its
+		// belongs-to statement denotes the module it belongs to, and
+		// thereby the definitions of the submodule itself.
+		if bt := root.ChildByType(NodeBelongsTo); bt != nil && bt.Prefix() == pfx {
+			return root, nil
+		}
+	}
 	mname, ok := getPfxName(root, pfx)
 	if !ok {
 		if !skipUnknown {
@@ -222,6 +230,9 @@ func (n *node) YangPrefixToNamespace(
 		return "", err
 	}
 	if moduleNode != nil {
+		if mr := moduleNode.Root(); mr.Type() == NodeSubmodule {
+			return getSubmoduleNamespace(mr, modules)
+		}
 		return moduleNode.Root().Ns(), nil
 	}
 	return "", fmt.Errorf("Unable to map prefix '%s' to namespace.",
